@@ -46,6 +46,55 @@ def dump_states(spec: str, cfg: str, *, workers: int = 8,
     return [tlc.parse_state(b) for b in blocks], res
 
 
+def cfg_with_fixed(base_cfg: str, fixed, tmpdir: str) -> str:
+    """The as-is configuration of a Wire* module: `base_cfg` with the constant
+    Fixed set to the deviation names that are recorded as repaired
+    (status=fixed in known/<id>.json), so that the as-is model follows the tree
+    when a defect is repaired in /repo.  Returns an absolute path in tmpdir."""
+    text = open(os.path.join(tlc.SPEC_DIR, base_cfg)).read()
+    val = '{' + ', '.join('"%s"' % x for x in sorted(fixed)) + '}'
+    text, n = re.subn(r'^\s*Fixed\s*(<-|=).*$', '  Fixed = ' + val, text, flags=re.M)
+    if n != 1:
+        raise tlc.TLCError(f'{base_cfg}: no Fixed constant to set')
+    path = os.path.join(tmpdir, base_cfg)
+    with open(path, 'w') as f:
+        f.write(text)
+    return path
+
+
+def seed_states(module: str, init_expr: str, base_cfg: str, fixed, tmpdir: str,
+                tag: str = 'Seeds') -> tuple[list, 'tlc.TLCResult']:
+    """The model's prediction for hand-picked values: a generated module that
+    EXTENDS `module` and starts from `init_expr` (a TLA+ state predicate over
+    the module's variables) instead of Init; no steps.  CONSTANTS are taken
+    from base_cfg (with Fixed replaced)."""
+    mod = f'{tag}_{module}'
+    with open(os.path.join(tmpdir, mod + '.tla'), 'w') as f:
+        f.write(f'---- MODULE {mod} ----\nEXTENDS {module}\n'
+                f'SeedInit == {init_expr}\nSeedNext == FALSE /\\ UNCHANGED vars\n====\n')
+    base = open(cfg_with_fixed(base_cfg, fixed, tmpdir)).read()
+    consts = base[base.index('CONSTANTS'):]
+    consts = '\n'.join(ln for ln in consts.split('\n')
+                       if not ln.startswith(('INVARIANT', 'PROPERTY')))
+    cfg = os.path.join(tmpdir, mod + '.cfg')
+    with open(cfg, 'w') as f:
+        f.write('INIT SeedInit\nNEXT SeedNext\n' + consts + '\n')
+    d = tempfile.mkdtemp(prefix='verif.wire.')
+    try:
+        path = os.path.join(d, 'st')
+        res = tlc.run_tlc(os.path.join(tmpdir, mod + '.tla'), cfg, workers=1, deadlock=False,
+                          extra=['-dump', path], cwd=tmpdir,
+                          java_opts='-DTLA-Library=' + tlc.SPEC_DIR)
+        fn = path + '.dump'
+        if not os.path.exists(fn):
+            raise tlc.TLCError('no state dump: ' + (res.error or res.output[-1500:]))
+        text = open(fn).read()
+    finally:
+        shutil.rmtree(d, ignore_errors=True)
+    blocks = re.split(r'^State \d+:\n', text, flags=re.M)[1:]
+    return [tlc.parse_state(b) for b in blocks], res
+
+
 # --------------------------------------------------------------------------
 # watchdog
 
@@ -171,15 +220,12 @@ def fetch_items(data: bytes) -> tuple[dict, list]:
                     key = r.until(b' [')
                     if r.peek() == 0x5b:
                         # section: up to the matching ']' (may contain a
-                        # header list with strings)
+                        # header list with strings / atoms containing ']')
                         depth = 0
                         st = r.i
                         while True:
                             c = r.peek()
-                            if c == 0x22:
-                                r.value()
-                                continue
-                            if c == 0x7b:
+                            if c in (0x22, 0x7b, 0x28):
                                 r.value()
                                 continue
                             r.i += 1
@@ -236,6 +282,21 @@ def pmap(fn, chunks: list, procs: int) -> list:
     ctx = mp.get_context('fork')
     with ctx.Pool(min(procs, len(chunks))) as pool:
         return pool.map(fn, chunks, chunksize=1)
+
+
+def run_parallel(jobs: dict, threads: int = 6) -> dict:
+    """jobs: {name: callable}; runs them in threads (each is a TLC
+    subprocess); -> {name: result | exception}"""
+    from concurrent.futures import ThreadPoolExecutor
+    out = {}
+    with ThreadPoolExecutor(max_workers=threads) as ex:
+        futs = {name: ex.submit(fn) for name, fn in jobs.items()}
+        for name, fut in futs.items():
+            try:
+                out[name] = fut.result()
+            except Exception as exc:     # noqa: BLE001
+                out[name] = exc
+    return out
 
 
 def nprocs() -> int:
